@@ -15,6 +15,7 @@
 package pubsub
 
 import (
+	"github.com/echovault/sugardb/internal/verif"
 	"github.com/gobwas/glob"
 	"github.com/tidwall/resp"
 	"log"
@@ -69,9 +70,11 @@ func (ch *Channel) Start() {
 			message := <-*ch.messageChan
 
 			ch.subscribersRWMut.RLock()
+			verif.Point("ps.dequeue", len(ch.subscribers))
 
 			for _, conn := range ch.subscribers {
 				go func(conn *resp.Conn) {
+					verif.Point("ps.deliver", ch.name, message)
 					if err := conn.WriteArray([]resp.Value{
 						resp.StringValue("message"),
 						resp.StringValue(ch.name),
@@ -79,6 +82,7 @@ func (ch *Channel) Start() {
 					}); err != nil {
 						log.Println(err)
 					}
+					verif.Point("ps.delivered")
 				}(conn)
 			}
 
